@@ -112,7 +112,9 @@ func (e *Engine) verifyContract(c *Contract) (res *UnitResult) {
 	pre = x.vc.name("pre", pre)
 	x.vc.assert(pre)
 	// vacuity guard: the precondition is satisfiable
-	x.oblige(fr, "cover", "requires satisfiable", st, tFalse, fn.Pos())
+	if len(c.Requires) > 0 {
+		x.oblige(fr, "cover", "requires satisfiable", st, tFalse, fn.Pos())
+	}
 	if c.HasMod {
 		x.hasMod = true
 		x.modTargets = x.evalModifies(fr, c, x.rootParams, st)
@@ -134,6 +136,9 @@ func (x *Exec) atReturn(fr *Frame, st *State, vals []Term, pos token.Pos) {
 	}
 	args := append(append([]Term{}, x.rootParams...), vals...)
 	for i, cl := range c.Ensures {
+		if len(cl.Tags) > 0 && len(x.props) > 0 && !anyCommon(cl.Tags, x.props) {
+			continue // clause belongs to another property's check
+		}
 		t := x.evalGhost(fr, x.ghostOf(c, cl.Ghost), args, nil, st, fr.entry)
 		x.curGhost = cl.Ghost
 		x.oblige(fr, "ensures", fmt.Sprintf("post %d: %s", i+1, cl.Orig), st, t, pos)
@@ -355,4 +360,15 @@ func loadedGlobal(v ssa.Value) *ssa.Global {
 		}
 	}
 	return nil
+}
+
+func anyCommon(a, b []string) bool {
+	for _, x := range a {
+		for _, y := range b {
+			if x == y {
+				return true
+			}
+		}
+	}
+	return false
 }
